@@ -113,7 +113,7 @@ C04onApi == "C04" \in Props =>
   /\ Ev.err => Ev.everr
   /\ Ev.node => Ev.val
   /\ T # <<>> => /\ Ev.node <=> (T[rootNode][0] # {})  \* Sentence: succeeds iff the whole input is derived
-                 /\ Ev.node => Ev.span = <<B, B + Len(w)>>
+                 /\ (Ev.node /\ D!SpanDomain(G)) => Ev.span = <<B, B + Len(w)>>
 C06onApi ==
   LET rt == RootRet
       att == {<<rt.att[i][1], MsgOfNode(rt.att[i][2])>> : i \in 1..Len(rt.att)}     \* failed terminal / End attempts
